@@ -6,49 +6,76 @@
    template rendered and the fixed text was found around the value.
    Verdict predicate (property level): Ok(ctx, s, out) of Escapers.tla - the context's standard
    decoder applied to out gives back s (with the three listed exceptions E1-E3).
+   A record with ctx = "url_prog" is a URL program (several steps in ONE href attribute):
+     {id, ctx, s: <<>>, at, segs, out, st}
+   at = "href" / "srcset", segs = the segments (literal text / shown value), out = the rendered
+   attribute value; its verdict predicate is OkProg(segs, at = "srcset", out): every query value slot of the program, located in the
+   rendered URL by its parameter name, percent-decodes back to the string shown there.  A program
+   without a slot the reference can judge is counted (ref_undefined), never failed.
    Records with st # "ok" are not judged (counted in diag.ndjson; the check treats "nodelim" as a
    machinery failure). *)
 EXTENDS Escapers, TLC, Json
 Rendered(r) == r.st = "ok"
-RecOk(r) == ~Rendered(r) \/ Ok(r.ctx, r.s, r.out)
+IsProg(r) == r.ctx = "url_prog"
+IsSet(r) == r.at = "srcset"
+RecOk(r) == ~Rendered(r) \/ (IF IsProg(r) THEN OkProg(r.segs, IsSet(r), r.out) ELSE Ok(r.ctx, r.s, r.out))
+RefUndefined(r) == Rendered(r) /\ IsProg(r) /\ JudgedSlots(r.segs, IsSet(r)) = {}
 
-\* Signature.  One root cause is recognised and named: in a CSS string, a hex escape directly
-\* followed by one of c d e f C D E F without the separating space (prefixWithSpace tests a..b) -
+\* Signature.  Two root causes are recognised and named.  (1) In a srcset, the renderer's URL state
+\* after a comma in literal text (the query value of a later URL of the set is escaped as path) -
+\* recognised when the real output is exactly what the as-found transcription of renderer.Text
+\* produces and the variant that starts a new URL at the comma would decode back.
+\* (2) In a CSS string, a hex escape directly followed by one of c d e f C D E F without the separating space (prefixWithSpace tests a..b) -
 \* recognised when the real output is exactly what the as-found transcription produces, s has such
 \* a pair, and the variant with the a..f range would decode back.  Any other failure carries the
 \* input itself, so that it is reported separately.
+\* A failing URL program carries its segments: literal text as it is, each value between -1 and -2.
+RECURSIVE ProgText(_, _)
+ProgText(segs, i) == IF i > Len(segs) THEN <<>>
+                     ELSE (IF segs[i].k = "t" THEN segs[i].b ELSE <<-1>> \o segs[i].b \o <<-2>>) \o ProgText(segs, i + 1)
 Sig(r) ==
+  IF IsProg(r) THEN
+     IF IsSet(r) /\ CommaLit(r.segs) /\ r.out = ModelProg(r.segs, TRUE, FALSE)
+                 /\ OkProg(r.segs, TRUE, ModelProg(r.segs, TRUE, TRUE))
+     THEN [fam |-> "escapers", ctx |-> r.ctx, cause |-> "srcset-url-state-after-comma", s |-> <<>>]
+     ELSE [fam |-> "escapers", ctx |-> r.ctx, cause |-> "roundtrip", s |-> <<IF IsSet(r) THEN -4 ELSE -3>> \o ProgText(r.segs, 1)]
+  ELSE
   IF r.ctx \in CssCtx /\ HexAfterEsc(r.s) /\ r.out = Model(r.ctx, r.s, 98) /\ Ok(r.ctx, r.s, Model(r.ctx, r.s, 102))
   THEN [fam |-> "escapers", ctx |-> r.ctx, cause |-> "css-hex-letter-after-escape", s |-> <<>>]
   ELSE [fam |-> "escapers", ctx |-> r.ctx, cause |-> "roundtrip", s |-> r.s]
 
 \* diagnostic only (never a verdict): does the real output equal the transcription's output?
-DriftFixed(r)   == Rendered(r) /\ r.out # Model(r.ctx, r.s, 102)
-DriftAsFound(r) == Rendered(r) /\ r.out # Model(r.ctx, r.s, 98)          \* differs from DriftFixed for CSS only
+ModelOf(r, hi)  == IF IsProg(r) THEN ModelProg(r.segs, IsSet(r), hi = 102) ELSE Model(r.ctx, r.s, hi)
+DriftFixed(r)   == Rendered(r) /\ r.out # ModelOf(r, 102)
+DriftAsFound(r) == Rendered(r) /\ r.out # ModelOf(r, 98)                 \* differs from DriftFixed for CSS and srcset only
 
 (* ---- record walk (after the skeleton of spec/lib2/Trace_HTMLEscape.tla).  Differences: each
         record is judged exactly once, in the step that consumes it; the bad records are kept as
         ONE representative index per distinct signature, at most 400 (bounded, so the walk stays
         linear; thousands of inputs sharing one cause cannot crowd a different failure out of the
         cap); extra counters go to diag.ndjson. ---- *)
-VARIABLES l, nbad, nda, ndf, nskip, reps, seen
+VARIABLES l, nbad, nda, ndf, nboth, nskip, nundef, reps, seen
 Obs == ndJsonDeserialize("obs.ndjson")
-Init == l = 1 /\ nbad = 0 /\ nda = 0 /\ ndf = 0 /\ nskip = 0 /\ reps = <<>> /\ seen = {}
+Init == l = 1 /\ nbad = 0 /\ nda = 0 /\ ndf = 0 /\ nboth = 0 /\ nskip = 0 /\ nundef = 0 /\ reps = <<>> /\ seen = {}
 \* (a value bound by \E over a singleton set is computed once; a LET-bound expression of an action
 \*  is re-evaluated by TLC at each use)
-Judge(r) == [bad |-> ~RecOk(r), df |-> DriftFixed(r), dcss |-> IF r.ctx \in CssCtx THEN DriftAsFound(r) ELSE FALSE]
+TwoVariants(r) == r.ctx \in CssCtx \/ (IsProg(r) /\ IsSet(r))
+Judge(r) == [bad |-> ~RecOk(r), df |-> DriftFixed(r), dcss |-> IF TwoVariants(r) THEN DriftAsFound(r) ELSE FALSE,
+             undef |-> RefUndefined(r)]
 Next == /\ l <= Len(Obs) /\ l' = l + 1
         /\ \E v \in {Judge(Obs[l])} :
            \E new \in {v.bad /\ Len(reps) < 400 /\ Sig(Obs[l]) \notin seen} :
               /\ nbad' = nbad + (IF v.bad THEN 1 ELSE 0)
               /\ ndf' = ndf + (IF v.df THEN 1 ELSE 0)
-              /\ nda' = nda + (IF (IF Obs[l].ctx \in CssCtx THEN v.dcss ELSE v.df) THEN 1 ELSE 0)
+              /\ nda' = nda + (IF (IF TwoVariants(Obs[l]) THEN v.dcss ELSE v.df) THEN 1 ELSE 0)
+              /\ nboth' = nboth + (IF v.df /\ (IF TwoVariants(Obs[l]) THEN v.dcss ELSE TRUE) THEN 1 ELSE 0)
               /\ nskip' = nskip + (IF Rendered(Obs[l]) THEN 0 ELSE 1)
+              /\ nundef' = nundef + (IF v.undef THEN 1 ELSE 0)
               /\ reps' = IF new THEN Append(reps, l) ELSE reps
               /\ seen' = IF new THEN seen \cup {Sig(Obs[l])} ELSE seen
 Done == l = Len(Obs) + 1 =>
           /\ ndJsonSerialize("diag.ndjson", <<[records |-> Len(Obs), nbad |-> nbad, drift_asfound |-> nda,
-                                               drift_fixed |-> ndf, not_rendered |-> nskip]>>)
+                                               drift_fixed |-> ndf, drift_both |-> nboth, not_rendered |-> nskip, ref_undefined |-> nundef]>>)
           /\ ndJsonSerialize("bad.ndjson",
                IF Len(reps) = 0 THEN <<>> ELSE
                [j \in 1..Len(reps) |-> [k |-> reps[j], id |-> Obs[reps[j]].id, sig |-> Sig(Obs[reps[j]]), nbad |-> nbad]])
